@@ -21,10 +21,28 @@ for pid in sel:
             continue
         touched = set(re.findall(r"^\+\+\+ b/(\S+)", open(patch).read(), re.M))
         checks = [pid]
-        for p in props:
-            files = set(p["anchors"]["files"])
-            if p["id"] not in checks and any(t in files or os.path.basename(t) in {os.path.basename(f) for f in files} for t in touched):
-                checks.append(p["id"])
+        if os.environ.get("REF_ALL"):
+            for p in props:
+                files = set(p["anchors"]["files"])
+                if p["id"] not in checks and any(t in files or os.path.basename(t) in {os.path.basename(f) for f in files} for t in touched):
+                    checks.append(p["id"])
+        else:
+            # the checks whose oracles look at private state, match stacks of known findings, or run the
+            # race detector: the ones a harmless restructuring is most likely to upset
+            base = {os.path.basename(t) for t in touched}
+            extra = []
+            if base & {"broker.go", "graph.go", "graphmap.go", "node.go"}:
+                extra += ["C04", "C12", "C06"]
+            if base & {"gated.go"}:
+                extra += ["C12", "C17", "C11"]
+            if base & {"filter.go", "map.go", "tag.go"}:
+                extra += ["C09", "C16"]
+            if base & {"file_sink.go"}:
+                extra += ["C08", "C15"]
+            extra += ["C19"]
+            for c in extra:
+                if c not in checks:
+                    checks.append(c)
         title = open(f"{wt}/_mut/{k}/README.md").read().strip().splitlines()[0][:140]
         print(f"## {pid}/{k} {title}\n   touched={sorted(touched)} checks={checks}", flush=True)
         out = subprocess.run(["./seedtest.sh", patch] + [c.lower() for c in checks], stdout=subprocess.PIPE, stderr=subprocess.STDOUT).stdout.decode(errors="replace")
